@@ -109,7 +109,8 @@ pub fn rec_bias(a: &Args, out: &mut Out) {
             }
         }
         // satellite ids at and beyond the field width
-        for sat in [31u8, 32, 63, 64, 65, 200, 255] {
+        // every satellite id alone (a one-bit satellite mask at every position), at and beyond the field width
+        for sat in (0u8..=66).chain([127u8, 128, 200, 255]) {
             emit(&mut r, out, num, &[(sat, table[0].0, table[0].1, 5)], "sat-id");
         }
         for k in 0..n {
